@@ -8,6 +8,7 @@ CONSTANTS
   Vals = {"v", "w"}
   MaxOps = 3
   MaxCalls = 1
+  AllowConflicts = TRUE
   MaxRefused = 1
   ProbeSlot = 9
   DevFirstWins = FALSE
